@@ -9,7 +9,7 @@ from .. import contracts, gen, ref
 from ..core import FAILED
 
 DECIDING = ["contract:partial_transpose", "O2:involution", "O2:all=transpose", "O2:complement", "contract:realignment",
-            "O3:realign-product", "O3:frobenius", "O4:cvxpy-value", "H1:repeat-call"]
+            "O3:realign-product", "O3:frobenius", "O4:cvxpy-value", "H1:repeat-call", "O1:many-subsystems"]
 RULE = ("cases = square (dims 1..4, n<=5) and rectangular (dims 2..4, n<=3) operators x every subset S as list/array/int x dtype, "
         "unique-id entries; realignment on square and rectangular bipartite blocks with every dim calling form; a signature is "
         "(monitor, n, |S|, rectangular?) and is non-trivial when the result differs from the input")
@@ -39,6 +39,8 @@ def cases(tier):
         out.append(("cvx", r))
     for r in range(40 if tier == "quick" else 3000):
         out.append(("repeat", r))
+    for r in range(48 if tier == "quick" else 4000):
+        out.append(("many", r))
     if tier == "thorough":
         out.append(("suite", 0))
     return out
@@ -65,8 +67,8 @@ def _common(ctx, rng, x, s, dr, dc, dimarg, n):
     from toqito.channels import partial_transpose
 
     rect = dr != dc
-    # NB the library flips the rows of a caller-supplied 2-row ndarray `dim` in place (observed on the unchanged tree;
-    # argument immutability is not part of C03), so every call gets its own copy.
+    # Every call gets its own copy of dim (the in-place flip of a caller's 2-row ndarray, repaired in the repository, is
+    # what the repeat-call monitor watches; here it must not couple the oracles to each other).
     fresh = (lambda: dimarg.copy()) if isinstance(dimarg, np.ndarray) else (lambda: [list(r) if isinstance(r, list) else r for r in dimarg])
     res = ctx.call(partial_transpose, x, _sysarg(rng, s), fresh())  # O1 by the contract
     if res is FAILED:
@@ -87,6 +89,26 @@ def _common(ctx, rng, x, s, dr, dc, dimarg, n):
         if other is not FAILED:
             ctx.check("O2:complement", np.array_equal(np.asarray(res), np.asarray(other).T), sig=(n, len(s)), mech="partial_transpose:complement",
                       detail={"d": dr, "s": s})
+
+
+def _run_many(ctx, spec, rng):
+    """Nine to thirteen subsystems, small total size."""
+    from toqito.channels import partial_transpose
+
+    d = gen.many_dims(rng, cap=256 if ctx.tier == "quick" else 1024)
+    n = len(d)
+    big = int(np.prod(d))
+    k = int(rng.integers(1, n))
+    s = list(range(k)) if rng.random() < 0.4 else [int(v) for v in rng.permutation(n)[:k]]
+    x = gen.unique_ids((big, big), "ifc"[int(rng.integers(0, 3))])
+    res = ctx.call(partial_transpose, x, list(s) if rng.random() < 0.5 else np.array(s), list(d) if rng.random() < 0.5 else np.array(d))
+    if res is FAILED:
+        return
+    want = ref.partial_transpose(x, s, d, d)
+    moved = sum(1 for i in s if d[i] > 1)
+    ctx.check("O1:many-subsystems", np.shape(res) == want.shape and np.array_equal(res, want), sig=(n, len(s), moved > 0), nt=moved > 0,
+              mech="partial_transpose:many-subsystems", detail={"d": d, "s": s})
+    ctx.sample("O1:many-subsystems", {"dims": d, "sys": s})
 
 
 def _run_sq(ctx, spec, rng):
